@@ -18,7 +18,7 @@ NBYTES = {"I": 4, "U": 4, "L": 8, "Q": 8}
 def gen_keys(rng, kk, n):
     lo, hi = BOUNDS[kk]
     style = rng.choice(["small", "wide", "extremes", "onebyte", "topbit", "dups"] if n < 300 else
-                       ["mixed", "wide", "topbit", "mixed", "onebyte", "unique", "unique"])
+                       ["mixed", "wide", "topbit", "mixed", "onebyte", "unique", "unique", "bytemask", "bytemask"])
     if style == "unique":
         # no repeated key anywhere, and only the b low-order bytes vary (b = 2 .. width): the radix
         # sort skips constant bytes, so the parity of b decides which buffer holds the result
@@ -30,6 +30,25 @@ def gen_keys(rng, kk, n):
         while len(seen) < min(n, span):
             seen.add(rng.randrange(span))
         out = [base + x for x in seen]
+        rng.shuffle(out)
+        return out
+    if style == "bytemask":
+        # an arbitrary set of byte positions varies and the others are constant (e.g. multiples of 256,
+        # or a low byte together with the top byte): the radix sort's "all keys share this byte" shortcut
+        # is then taken for a LOWER byte while a HIGHER byte still needs sorting
+        nb = NBYTES[kk]
+        pos = sorted(rng.sample(range(nb), rng.randint(2, min(3, nb))))
+        if rng.random() < 0.6 and 0 in pos:
+            pos = [q for q in pos if q != 0] + ([q for q in range(1, nb) if q not in pos][:1])
+            pos = sorted(set(pos))
+        const = rng.randrange(256 ** nb)
+        seen = set()
+        while len(seen) < min(n, 256 ** len(pos)):
+            x = const
+            for q in pos:
+                x = (x & ~(0xff << (8 * q))) | (rng.randrange(256) << (8 * q))
+            seen.add(x)
+        out = [x + lo for x in seen]            # lo = 0 for unsigned, -2^(w-1) for signed: stays inside the range
         rng.shuffle(out)
         return out
     out = []
